@@ -1583,6 +1583,15 @@ func (d *DotGit) PackRefs() (err error) {
 	if err = d.addRefsFromRefDir(&refs, seen); err != nil {
 		return err
 	}
+	// Symbolic references stay loose, as with git pack-refs: a packed-refs
+	// line can only hold an object id.
+	looseRefs := refs[:0]
+	for _, ref := range refs {
+		if ref.Type() == plumbing.HashReference {
+			looseRefs = append(looseRefs, ref)
+		}
+	}
+	refs = looseRefs
 	if len(refs) == 0 {
 		// Nothing to do!
 		return nil
